@@ -24,6 +24,7 @@ def enclosing(f, line):
     return best
 
 anchors = collections.defaultdict(set)  # (file, fn) -> props
+counts = collections.Counter()
 man = json.load(open(os.path.join(VERIF, "MANIFEST.json")))
 for c in man["checks"]:
     pid = c["property_id"]
@@ -42,6 +43,7 @@ for c in man["checks"]:
                 fn = enclosing(f, int(line))
                 if fn:
                     anchors[(f, fn)].add(pid)
+                    counts[(f, fn)] += 1
 
 touched = collections.defaultdict(set)
 for d in sorted(glob.glob(os.path.join(VERIF, "benign", "*-*"))):
@@ -62,3 +64,8 @@ un = sorted(k for k in anchors if k not in touched)
 print("%d anchor functions, %d touched by a benign refactoring, %d untouched" % (len(anchors), len([k for k in anchors if k in touched]), len(un)))
 for f, fn in un:
     print("  %s :: %s   [%s]" % (f, fn, ",".join(sorted(anchors[(f, fn)]))))
+
+if os.environ.get("TOP"):
+    print("--- anchor functions by number of obligations")
+    for (f, fn), c in counts.most_common(int(os.environ["TOP"])):
+        print("  %s :: %s   [%d obligations; %s; touched by %d]" % (f, fn, c, ",".join(sorted(anchors[(f, fn)])), len(touched.get((f, fn), ()))))
